@@ -269,6 +269,9 @@ func (u *upstreamSrv) handle(w http.ResponseWriter, r *http.Request) {
 	for _, kv := range spec.Headers {
 		h.Add(kv[0], kv[1])
 	}
+	if _, ok := h["Content-Type"]; !ok {
+		h["Content-Type"] = nil // no sniffing: the scripted answer has no Content-Type
+	}
 	h.Set("X-Upstream", u.name)
 	h.Set("X-Serial", strconv.Itoa(serial))
 	if spec.Abort {
